@@ -43,15 +43,30 @@ def __getattr__(name):
             # Resolve ``s`` and ``axes`` as scipy does (the dask wrapper would pick
             # the first axes for a given ``s``, ignores an explicit ``axes=None``
             # and cannot handle -1 entries in ``s``).
-            given = dict(zip(("s", "axes"), args[:2]), **kwargs)
+            given = dict(zip(("s", "axes", "norm"), args[:3]), **kwargs)
             s, axes = given.get("s"), given.get("axes")
+            # A bare integer stands for a sequence of one.
+            if s is not None and not hasattr(s, "__len__"):
+                s = (s,)
+            if axes is not None and not hasattr(axes, "__len__"):
+                axes = (axes,)
+            if axes is None and name.endswith("2") and "axes" not in given:
+                axes = (-2, -1)
             if axes is None and ("axes" in given or s is not None or name.endswith("n")):
                 n_axes = x.ndim if s is None else len(s)
+                if n_axes > x.ndim:
+                    raise ValueError("shape requires more axes than are present")
                 axes = tuple(range(x.ndim - n_axes, x.ndim))
             if s is not None and axes is not None:
+                if len(s) != len(axes):
+                    raise ValueError(
+                        "when given, axes and shape arguments have to be of the same length"
+                    )
+                if any(not -x.ndim <= a < x.ndim for a in axes):
+                    raise ValueError("axes exceeds dimensionality of input")
                 s = tuple(x.shape[a] if n == -1 else n for n, a in zip(s, axes))
-            args = args[2:]
-            kwargs = {k: v for k, v in kwargs.items() if k not in ("s", "axes")}
+            args = args[3:]
+            kwargs = {k: v for k, v in given.items() if k not in ("s", "axes")}
             if s is not None:
                 kwargs["s"] = s
             if axes is not None:
